@@ -423,6 +423,15 @@ def gen():
     if b != "true":
         allconst = False
     defB("READY_TO_WRITE_CONST_TRUE", allconst)
+    # network.rs::connect_sync_with: connect_with()?, then nothing but: sleep 1 ms; is_ready ->
+    # Some(true) => Ok / Some(false) => go on / None => Err(ConnectionRefused)   (the model of C03)
+    nw = strip_comments(read("network.rs"))
+    csb = " ".join(fn_body(nw, r"pub fn connect_sync_with\s*\(", "network.rs::connect_sync_with").split())
+    shape = ("let (endpoint, addr) = self.connect_with(transport_connect, addr)?; loop { "
+             "std::thread::sleep(Duration::from_millis(1)); match self.is_ready(endpoint.resource_id()) { "
+             "Some(true) => return Ok((endpoint, addr)), Some(false) => continue, None => { "
+             "return Err(io::Error::new( io::ErrorKind::ConnectionRefused, \"Connection refused\", )) } } }")
+    defB("CONNECT_SYNC_LOOP_SHAPE_OK", csb == shape, "connect_sync_with is connect_with + poll is_ready every 1 ms: Some(true) -> Ok, None -> ConnectionRefused")
     emit("")
 
     # ---- events.rs: what the blocking receives wait for; order of the non-blocking choice ------
